@@ -95,6 +95,10 @@ def savetxt(
         else:
             header = numpoly_header
         X = structured_to_unstructured(X.values.ravel())
+        if encoding is None:
+            # the keys can be any character: do not leave the header to the
+            # locale (paths) or to latin-1 (binary streams), loadtxt reads UTF-8
+            encoding = "utf-8"
 
     numpy.savetxt(
         fname=fname,
